@@ -278,6 +278,13 @@ theorem real_lock_hazards_known :
     (lockCycleHazards lockFns loopLockCalls).all
       (fun h => h.1 == LP_hls_Server_run &&
         (lockFns.any fun l => l.fn == h.2.1 && l.lockObj == LO_hls_muxer_mutex)) = true := by decide
+/-- **no recursive lock**: no function calls, while it holds a mutex, a function of its package that
+(transitively, through calls resolved with syntactic type hints) takes the same mutex object again — a
+recursive `RLock` deadlocks as soon as a writer arrives in between.  The one listed pair is not the same
+instance: `session.initialize` holds ITS `initMutex` while `muxer.addSession` may close ANOTHER session
+(the CDN session being replaced), which takes that other session's `initMutex`. -/
+theorem real_no_recursive_lock :
+    recursiveLocks.all (· == (LF_hls_session_initialize, MU_hls_session_initMutex)) = true := by decide
 theorem real_levels_ok : levelsOK T = true := by decide
 theorem real_shutdown_ok : shutdownOK T = true := by decide
 
